@@ -42,7 +42,7 @@ C16_GROUPS = [
 ]
 
 STATIC = [
- {"id": "KF-C17-01", "property": "C17", "status": "open", "signatures": ["corrupt|field=table.size|outcome=*"],
+ {"id": "KF-C17-01", "property": "C17", "status": "open", "signatures": ["corrupt|field=table.size|outcome=abort-in-loader|assert", "corrupt|field=table.size|outcome=abort-in-loader|asan:*", "corrupt|field=table.size|outcome=crash-after-load|*", "corrupt|field=table.size|outcome=loaded-different"],
   "what": "a buffer-table `size` field that disagrees with the file is not detected: section bodies and relocation entries are then misparsed and the loader aborts on an assert, crashes, or returns rules that crash or misbehave when used (no checksum / size cross-check in the format)"},
  {"id": "KF-C17-02", "property": "C17", "status": "open", "signatures": ["corrupt|field=reloc.buffer_id|outcome=*"],
   "what": "relocation entries are only bounds-checked against their own buffer: an entry redirected to another buffer/offset makes the loader patch the wrong word (assert in yr_arena_ref_to_ptr, or rules that crash when scanned)"},
